@@ -502,6 +502,8 @@ func (w *w1) clientOp(client, seq int, op simrt.Op) {
 		w.opCreateTopic(client, op)
 	case "acl":
 		w.opACL(client, op)
+	case "version-sweep":
+		w.opVersionSweep(client, op)
 	default:
 		w1ExtraOp(w, client, seq, op)
 	}
